@@ -1004,8 +1004,9 @@ func (g *guardCtx) recvOK(v ssa.Value) string {
 		}
 		for _, c := range closes {
 			if !c.deferred && !dominatesAllReturns(c.instr) && len(returnBlocks(c.fn)) > 0 {
-				// a direct close that is not on every exit path: accept only if it is the last statement before a return
-				if _, isRet := c.instr.Block().Instrs[len(c.instr.Block().Instrs)-1].(*ssa.Return); !isRet {
+				// a direct close that is not on every exit path: every path of that function from its entry to a return
+				// must close the channel itself or start the goroutine that closes it
+				if !closedOrHandedOverOnEveryPath(c.fn, closes) {
 					return "channel " + g.a.makeName(m) + " is not closed on every exit of " + fnName(c.fn)
 				}
 			}
@@ -1055,4 +1056,56 @@ func (a *ownAnalysis) checkWaitPath(fnKey string) []ownResult {
 		res = append(res, ownResult{"wait[" + fnKey + "]#cancel-guard", false, "no joined goroutine found"})
 	}
 	return res
+}
+
+// closedOrHandedOverOnEveryPath: every path of fn from its entry to a return passes a direct close among `closes`,
+// or a go statement that starts a function which closes the channel on each of its own exits (deferred, or a close
+// that dominates all its returns).
+func closedOrHandedOverOnEveryPath(fn *ssa.Function, closes []chanSite) bool {
+	closerFn := map[*ssa.Function]bool{}
+	closing := map[*ssa.BasicBlock]bool{}
+	for _, c := range closes {
+		if c.fn == fn && !c.deferred {
+			closing[c.instr.Block()] = true
+		}
+		if c.fn != fn && (c.deferred || dominatesAllReturns(c.instr)) {
+			closerFn[c.fn] = true
+		}
+	}
+	for _, b := range fn.Blocks {
+		for _, ins := range b.Instrs {
+			if g, ok := ins.(*ssa.Go); ok {
+				var t *ssa.Function
+				if mc, ok := g.Call.Value.(*ssa.MakeClosure); ok {
+					t, _ = mc.Fn.(*ssa.Function)
+				} else {
+					t = g.Call.StaticCallee()
+				}
+				if t != nil && closerFn[t] {
+					closing[b] = true
+				}
+			}
+		}
+	}
+	if len(fn.Blocks) == 0 {
+		return false
+	}
+	seen := map[*ssa.BasicBlock]bool{}
+	var dfs func(b *ssa.BasicBlock) bool
+	dfs = func(b *ssa.BasicBlock) bool {
+		if seen[b] || closing[b] {
+			return true
+		}
+		seen[b] = true
+		if _, isRet := b.Instrs[len(b.Instrs)-1].(*ssa.Return); isRet {
+			return false
+		}
+		for _, s := range b.Succs {
+			if !dfs(s) {
+				return false
+			}
+		}
+		return true
+	}
+	return dfs(fn.Blocks[0])
 }
